@@ -208,7 +208,7 @@ let () =
             | _ -> ());
            if st.closed then begin
              Printf.printf "%s selfcheck %s\n" id
-               (if !prefilter || int_of_n st.nextRef > 5000 then "skipped" else if Inst.self_check fdec_table cfg st !qrefs then "1" else "0");
+               (if !prefilter || int_of_n st.nextRef > 5000 || !qrefs = [] then "skipped" else if Inst.self_check fdec_table cfg st !qrefs then "1" else "0");
              (match files, ciph with
               | Some oc, CNone -> Printf.fprintf oc "%s %s\n" id (hex_of_bytes st.out)
               | _ -> ())
